@@ -414,7 +414,8 @@ impl KeyLike for TKey {
 
 pub fn skey(p: u16) -> String {
     // heap-owning, variable length, common prefixes
-    format!("key-{}-{}", p, "x".repeat((p % 5) as usize))
+    // (one payload in eleven gives a key wider than a kilobyte)
+    format!("key-{}-{}", p, "x".repeat(if p % 11 == 7 { 1500 } else { (p % 5) as usize }))
 }
 pub fn skey_payload(s: &str) -> u16 {
     s.split('-').nth(1).and_then(|x| x.parse().ok()).unwrap_or(u16::MAX)
